@@ -179,6 +179,7 @@ struct MonObs
     // acquisitions whose stop/abort call overlapped a period in which this
     // client was inside map/unmap or held a mapped region
     std::vector<int> raced;
+    size_t excused_failures = 0;
     bool is_raced(int acq) const
     {
         for (int a : raced)
@@ -827,6 +828,19 @@ monitor_thread(int s, Op op, bool drainer = false)
                             "flushing the same monitor reader on another "
                             "thread (map #%lld)",
                             s, (long long)it);
+        }
+        if (rc != AcquireStatus_Ok && !mo.raced.empty() &&
+            mo.excused_failures < mo.raced.size()) {
+            // Known finding C06.monitor_raced_with_stop: a stop/abort that
+            // manipulated this reader while the client was using it can leave
+            // the bookmarks inconsistent; the channel notices at the next map
+            // (one failing call) and recovers.  One failure per such stop is
+            // attributed to that finding; a second one is a new violation
+            // (e.g. a status that never clears).
+            mo.excused_failures++;
+            probe("reach.transient_map_failure_after_raced_stop");
+            sleep_ns((uint64_t)std::max<int64_t>(1, poll) * 1000);
+            continue;
         }
         if (rc != AcquireStatus_Ok)
             oracle_fail("C06.map_read_fails",
